@@ -140,9 +140,12 @@ class _PokTranslator(_util.OverrideableDataDesc):
             params.extend(kwoparams)
         if to_use:
             raise ValueError("Parameters not found: " + ' '.join(to_use))
+        # for a bound method, a signature stored on the function (by annotate)
+        # names the function itself
+        swap = {self.func: self, getattr(self.func, '__func__', self.func): self}
         self.__signature__ = sig.replace(
             parameters=params,
-            sources=_signatures.copy_sources(sig.sources, {self.func:self}))
+            sources=_signatures.copy_sources(sig.sources, swap))
 
     def _sigtools__autoforwards_hint(self, func):
         ast = _util.get_ast(self.func)
